@@ -166,6 +166,10 @@ def run(ctx):
         ctx.notes["generator_pairs_after_sent_skips"] = sum(hdreplay.generator_jumps(ctx.seed + r) for r in range(1 if ctx.quick else 12))
     except hdreplay.Mismatch as m:
         ctx.violation("address-generator-sent-skips", m.family, m.what, {"mode": "generator-jumps", "seed": ctx.seed})
+    try:
+        ctx.notes["requests_with_reused_argument_objects"] = sum(hdreplay.held_arguments(ctx.seed + r) for r in range(1 if ctx.quick else 10))
+    except hdreplay.Mismatch as m:
+        ctx.violation("reused-argument-objects", m.family, m.what, {"mode": "held-arguments", "seed": ctx.seed})
     # binding self-check: a behaviour with one step's result tampered with must be flagged
     ctx.binding_selfcheck = selfcheck(bs)
     return ctx.finish(
@@ -205,6 +209,9 @@ def replay(ctx, path):
             hdreplay.long_scan(9000, 4400)
         elif rp.get("mode") == "bip85-spellings":
             hdreplay.bip85_spellings()
+        elif rp.get("mode") == "held-arguments":
+            for r in range(10):
+                hdreplay.held_arguments(rp.get("seed", 0) + r)
         elif rp.get("mode") == "generator-jumps":
             for r in range(12):
                 hdreplay.generator_jumps(rp.get("seed", 0) + r)
